@@ -15,6 +15,8 @@ import (
 	"encoding/pem"
 	"fmt"
 	"math/big"
+	"os"
+	"strconv"
 	"strings"
 	"sync"
 	"time"
@@ -426,7 +428,13 @@ type connResult struct {
 	master   []byte // server-side master secret
 }
 
-const connTimeout = 8 * time.Second
+// connTimeout is the watchdog for one connection (VERIF_TLSNEG_TIMEOUT seconds, default 20).
+var connTimeout = func() time.Duration {
+	if n, err := strconv.Atoi(os.Getenv("VERIF_TLSNEG_TIMEOUT")); err == nil && n > 0 {
+		return time.Duration(n) * time.Second
+	}
+	return 20 * time.Second
+}()
 
 // runConn performs one connection: handshake + 1 KiB echo in both directions.
 func runConn(cfg *bfe_tls.Config, cl *ClientSpec, goOffer *tls.ClientSessionState, rawOffer *rawSession, seed int64) (res connResult) {
@@ -624,9 +632,10 @@ func runConn(cfg *bfe_tls.Config, cl *ClientSpec, goOffer *tls.ClientSessionStat
 	if cPanic != "" || sPanic != "" {
 		o.Panic = "client: " + cPanic + " server: " + sPanic
 	}
-	if strings.Contains(o.CErr, "i/o timeout") || strings.Contains(o.SErr, "i/o timeout") {
-		o.Hang = true
+	for _, e := range []string{o.CErr, o.SErr, o.Echo} {
+		if strings.Contains(e, "i/o timeout") || strings.Contains(e, "deadline exceeded") {
+			o.Hang = true // watchdog expired (the family driver re-runs such cases alone before judging)
+		}
 	}
 	return res
 }
-
